@@ -161,6 +161,8 @@ def api_ops(history):
             ops += ["RS", "RU"]
         elif c == "stepo":
             ops += ["RSo", "RU"]
+        elif c == "stepx":
+            ops += ["RSx", "RU"]
         elif c.startswith("rollout:"):
             ops += ["RU", "RS"] * int(c.split(":")[1])
         else:
@@ -189,6 +191,8 @@ class CompiledRunner:
         G = self.G
         ss = None
         self.ss_mismatch = []
+        self.xover = []     # what every 'stepx' handed over: the SAME (stale) step state and output, computed once from reset()'s step state
+        stale = None
 
         def check_ss(call, gs_, ss_):
             # the returned step state must be the supervisor's step state of the returned graph state
@@ -218,6 +222,20 @@ class CompiledRunner:
                     sup.do_log = was
                 gs, ss = self._fn("stepo", lambda g, s, o: G.step(g, s, o))(gs, new_ss, out)
                 check_ss(f"{ci}:stepo", gs, ss)
+            elif c == "stepx":
+                sup = self.sup
+                if stale is None:
+                    was = sup.do_log
+                    sup.do_log = False
+                    try:
+                        stale = sup.step(ss if ss is not None else gs.step_state[sup.name])
+                    finally:
+                        sup.do_log = was
+                xs, xo = stale
+                self.xover.append(dict(h=int(onp.asarray(xs.state.h)), rng=tuple(int(v) for v in onp.asarray(xs.rng).reshape(-1)),
+                                       pl=dict(eps=int(onp.asarray(xo.eps)), dseq=int(onp.asarray(xo.seq)), h=int(onp.asarray(xo.h)))))
+                gs, ss = self._fn("stepo", lambda g, s, o: G.step(g, s, o))(gs, xs, xo)
+                check_ss(f"{ci}:stepx", gs, ss)
             elif c.startswith("rollout:"):
                 n = int(c.split(":")[1])
                 gs = self._fn(c, lambda g: G.rollout(g, max_steps=n))(gs)
@@ -266,7 +284,7 @@ def project_record_compiled(rec, cfg, rngidx):
     return out
 
 
-def project_run(static_trace, cfg, gs0, history, log_entries, gs_final, rngidx, tid, rec=None, ref=None, h0=None, train=None):
+def project_run(static_trace, cfg, gs0, history, log_entries, gs_final, rngidx, tid, rec=None, ref=None, h0=None, train=None, xover=None):
     """RexRun trace of one call history executed from graph state gs0 (episode = static_trace's episode)."""
     kinds = {}
     for n in cfg["nodes"]:
@@ -281,6 +299,10 @@ def project_run(static_trace, cfg, gs0, history, log_entries, gs_final, rngidx, 
         t["rec"] = rec
     if ref is not None:
         t["ref"] = ref
+    if xover:
+        idx = [i + 1 for i, o in enumerate(t["ops"]) if o == "RSx"]
+        assert len(idx) == len(xover)
+        t["opx"] = {str(i): dict(h=x["h"], rngi=(rngidx.idx(cfg["sup"], x["rng"]) if rngidx is not None else trace.NA), pl=x["pl"]) for i, x in zip(idx, xover)}
     if train:
         t["train"] = train
         t["ref_first"] = True
